@@ -75,7 +75,8 @@ pub fn parse(text: &str) -> Result<BTreeMap<String, FnClauses>, String> {
                     Cur::None
                 }
                 "@attr" => {
-                    const ALLOWED: [&str; 1] = ["#[verifier::loop_isolation(false)]"];
+                    // the second one is an ASSUMPTION (termination of the function's loops is not proved): the runner lists it in trusted_base
+                    const ALLOWED: [&str; 2] = ["#[verifier::loop_isolation(false)]", "#[verifier::exec_allows_no_decreases_clause]"];
                     if !ALLOWED.contains(&arg) {
                         return Err(format!("line {}: @attr {arg} is not on the allow-list {ALLOWED:?}", ln + 1));
                     }
@@ -122,8 +123,17 @@ pub fn parse(text: &str) -> Result<BTreeMap<String, FnClauses>, String> {
                     } else {
                         return Err(format!("line {}: @hint after|before \"needle\"", ln + 1));
                     };
+                    // `@hint after #2 "needle"`: the 2nd of exactly-as-many-as-today statements starting with needle
+                    let (nth, rest) = match rest.strip_prefix('#') {
+                        Some(r) => {
+                            let mut it = r.splitn(2, char::is_whitespace);
+                            let k: usize = it.next().unwrap_or("").parse().map_err(|_| format!("line {}: @hint after #<k> \"needle\"", ln + 1))?;
+                            (k, it.next().unwrap_or("").trim())
+                        }
+                        None => (0, rest),
+                    };
                     let needle = rest.trim_matches('"').to_string();
-                    f.hints.push((after, needle, String::new()));
+                    f.hints.push((after, if nth > 0 { format!("#{nth}#{needle}") } else { needle }, String::new()));
                     Cur::Hint(f.hints.len() - 1)
                 }
                 "@end" => Cur::None,
